@@ -13,8 +13,9 @@ make(globals(), "C18", [Walker],
            "to 1e-12; (choice point) every (active cell, offset) pair of the configured grid (4-11 cells per side, box "
            "lengths 0.8-33): the cell the real cell system reports at the offset is active cell + offset modulo the "
            "grid; (in-run) every cell-veto candidate: target cell = active cell + sampled offset modulo the grid, "
-           "candidate time consistent with budget/(total rate x charge factor x speed), confirmation draw limited by "
-           "the bound of the sampled offset; non-trivial = >= 1 walker explored and >= 50 proposals checked"),
+           "candidate time consistent with budget/(total rate x charge factor x speed), and the event is confirmed "
+           "exactly when the unit variate of the confirmation draw lies below (true rate per time, as asked of the "
+           "potential) / (bound of the sampled offset x charge factor x speed); non-trivial = >= 1 walker explored and >= 50 proposals checked"),
      nontrivial=lambda r: r.probes.get("c18_walkers_explored", 0) >= 1 and r.probes.get("c18_proposals_checked", 0) >= 50,
      crash_anchor_files=["/walker.py", "cell_veto_event_handler.py"],
      assumptions=["the charge factor of the estimator is not observable through a public seam; it is inferred from "
